@@ -983,7 +983,9 @@ pub fn layout(prog: &Program, t: &Ty) -> (usize, usize)
 			}
 			match d.word_bytes
 			{
-				Some(b) => (b, b.min(8)),
+				// a word has its declared size; its alignment is that of its
+				// members (it is laid out like a structure)
+				Some(b) => (b, maxa),
 				None => ((off + maxa - 1) / maxa * maxa, maxa),
 			}
 		}
